@@ -5,6 +5,9 @@ package writer
 // Shared fakes for the core/writer harnesses (C07, C08, C09, C20).
 
 import (
+	"time"
+
+	"github.com/milvus-io/milvus/pkg/util/retry"
 	"context"
 	"errors"
 
@@ -183,7 +186,11 @@ func (m *wMeta) RemoveTaskMsg(ctx context.Context, taskID string, msgID string) 
 // wNewWriter builds the REAL ChannelWriter through its constructor.
 func wNewWriter(h api.DataHandler, meta api.ReplicateMeta, dropped map[string]map[string]uint64, downstream, replicateID string) *ChannelWriter {
 	w := NewChannelWriter(h, meta, config.WriterConfig{MessageBufferSize: 4, ReplicateID: replicateID}, dropped, downstream)
-	return w.(*ChannelWriter)
+	cw := w.(*ChannelWriter)
+	// R attempts without real back-off (the executor models retry.Do as R attempts; natively the
+	// default options would sleep for seconds on every failing probe)
+	cw.retryOptions = []retry.Option{retry.Attempts(uint(vParam("R", 2))), retry.Sleep(time.Millisecond), retry.MaxSleepTime(time.Millisecond)}
+	return cw
 }
 
 // wOpPack wraps one op message in a pack whose end position carries ts.
